@@ -35,7 +35,7 @@ ASSUMPTIONS = [
     "probe bodies are deterministic; one-shot iterators are never placed directly under a cache",
     "reference interpreter used as cross-check only (disagreements are counted, reported under C05)",
 ]
-FLOORS = {"hits_compared": (400, 8000), "steps": (1500, 30000), "histories_with_hit_and_change": (80, 1500)}
+FLOORS = {"hits_compared": (400, 8000), "steps": (1500, 30000), "histories_with_hit_and_change": (80, 1500), "hostile_steps": (1200, 24000)}
 COVER = {"kinds_under_cache_with_hits": ["opt", "switch", "case", "coalesce", "bind", "map", "tmpl", "with", "apply", "list", "ds"]}
 SHARDS_QUICK = 4
 # domains only in the directed families: an out-of-domain value inside a bind/case dispatch of a skipped
@@ -65,7 +65,7 @@ def run_history(ctx, program, history, tag="random"):
             def rerun():
                 sc = Ctx(ctx.prop, ctx.tier, ctx.seed)
                 sc.scratch = True
-                run_history(sc, program, history, tag)
+                run_history(sc, program, list(snaps), tag)
                 return len(sc.violations)
 
             W = {**W, "mechanism": classify_fallback(rerun)}
@@ -90,7 +90,12 @@ def run_history(ctx, program, history, tag="random"):
 
     outcomes = set()
     n_hits_total = 0
+    snaps = []
     for step, o in enumerate(history):
+        if isinstance(o, tuple):  # (label, dictionary object) from lvf.hostile: the same object may come again, edited in place
+            ctx.count("hostile_steps")
+            o = o[1]
+        snaps.append(copy.deepcopy(o))
         o_in = copy.deepcopy(o)
         uncached = None
         with log.shadowed():
@@ -107,7 +112,7 @@ def run_history(ctx, program, history, tag="random"):
         ctx.count("hits_compared", len(hits))
         n_hits_total += len(hits)
         outcomes.add(repr(uncached))
-        witness = {"program": program, "history": history[: step + 1], "step": step, "source": tag}
+        witness = {"program": program, "history": snaps[: step + 1], "step": step, "source": tag}
         if stale:
             node, opts, got, fresh = stale[0]
             report(
@@ -146,10 +151,10 @@ def run_history(ctx, program, history, tag="random"):
             pass
     if n_hits_total and len(outcomes) > 1:
         ctx.count("histories_with_hit_and_change")
-        ctx.nontrivial(spec_hash([program, history]))
+        ctx.nontrivial(spec_hash([program, snaps]))
         for k in kinds_of(program):
             ctx.cover("kinds_under_cache_with_hits", k)
-        ctx.sample({"program": program, "history": history[:3], "hits": n_hits_total, "distinct_outcomes": len(outcomes)}, limit=2)
+        ctx.sample({"program": program, "history": snaps[:3], "hits": n_hits_total, "distinct_outcomes": len(outcomes)}, limit=2)
 
 
 def known_finding_reproducers(ctx):
@@ -218,6 +223,13 @@ def run(ctx):
         # AllOptions exposes the dictionary itself (incl. its key order) as a value: no permutations then
         star = "*" in Ref(program).may_read(program["root"]) or any("*" in Ref(program).may_read({"k": "ds", "id": d}) for d in program["datasets"])
         run_history(ctx, program, U.history(r, length, keys, permute=not star, closed_only=True))
+        if i % 2 == 0:
+            # the same long-lived cached instance over a hostile history (same dictionary object edited in place,
+            # equal-but-differently-typed dictionaries, fail-then-complete): a hit must still be a value of THIS dictionary
+            from .. import hostile
+
+            base = U.random_options(r, p_present=0.75, templated=0.0, closed_only=True)
+            run_history(ctx, program, hostile.steps(case_rng(ctx, ("hostile", i)), base, keys), tag="hostile")
 
 
 def replay(ctx, rep):
